@@ -170,10 +170,9 @@ def check_c17(tier):
     progs, results, tmp = run_family(tier, use, None, rep)
     jobs = []
     for i, res in enumerate(results):
-        if res["compile"]["rc"] != 0:
-            continue
         for l in use:
-            jobs.append((i, l))
+            if l in res.get("dirs", {}):
+                jobs.append((i, l))
 
     def one(job):
         i, l = job
@@ -181,14 +180,14 @@ def check_c17(tier):
         sc = os.path.join(tmp, "p%d" % i, "selftest_" + l)
         os.makedirs(sc, exist_ok=True)
         try:
-            return job, langs.get(l).selftest(res["compile"]["dirs"][l], sc)
+            return job, langs.get(l).selftest(res["dirs"][l], sc)
         except Exception as e:
             raise Infra("selftest plug-in %s failed on %s: %s" % (l, res["prog"]["id"], e))
     sts = dict(pmap(one, jobs, workers=16))
     events, meta = [], []
     for i, res in enumerate(results):
         prog = res["prog"]
-        events.append({"ev": "program", "id": prog["id"], "npackets": len(prog["pkts"]), "accepted": res["compile"]["rc"] == 0})
+        events.append({"ev": "program", "id": prog["id"], "npackets": len(prog["pkts"]), "accepted": bool(res.get("dirs"))})
         meta.append({"prog": prog["id"]})
         for l in use:
             st = sts.get((i, l))
@@ -226,9 +225,9 @@ def crosscheck_real_lua(results):
     compared = agree = 0
     for res in results:
         s = res["sessions"].get("lua")
-        if res["compile"]["rc"] != 0 or not s or s.get("unsupported") or s.get("crash") or not s.get("file"):
+        if not s or s.get("unsupported") or s.get("crash") or not s.get("file"):
             continue
-        path = os.path.join(res["compile"]["dirs"]["lua"], s["file"])
+        path = os.path.join(res["dirs"]["lua"], s["file"])
         try:
             src = open(path, "rb").read()
             rs = lua_real.RealSession(src, s["file"])
@@ -275,7 +274,7 @@ def check_c15(tier):
     for res in results:
         s = res["sessions"].get("lua")
         pid = res["prog"]["id"]
-        if res["compile"]["rc"] != 0 or s is None:
+        if s is None:
             continue
         if s.get("unsupported") or s.get("crash"):
             unsupported += 1
